@@ -151,8 +151,8 @@ PROPS["C11"] = {
 }
 
 PROPS["C16"] = {
-    "module": "RCE.Props.C16",
-    "theorems": ["RCE.Props.C16.search_clock_indep"],
+    "module": "RCE.Props.C16bench",
+    "theorems": ["RCE.Props.C16.search_clock_indep", "RCE.Props.C16.bench_total_clock_indep", "RCE.Props.C16.bench_result_clock_indep"],
     "streams": {"quick": [S("search-plain", "plain", 64, 3, extra=["--repeat", 3]), S("search-deep", "deep", 2, 7, shards=2),
                           dict(S("search-xcheck", "xcheck", 2400, 4, extra=["--repeat", 2]), driver="search:0"),
                           dict(S("search-chain", "chain", 64, 3), driver="search:0")],
